@@ -88,3 +88,68 @@ def unescape_plain(e):
             out += e[i]
             i += 1
     return out
+
+
+# ---- reference rule for text comparison (C04 / C15) -------------------------------------------------
+def text_rule(actual, expected, norm=None, ignore_substrings=(), remove_lines=(), max_perm=0,
+              preprocess=None, pattern_equiv=None):
+    """The documented rule, written out.  Returns (passes, unexcused) where unexcused is the list of
+    (index-in-actual, index-in-expected) pairs, in the ORIGINAL (post-preprocess, post-trailing-drop)
+    numbering, that are neither equal after normalisation nor excused by an option.  When the numbers
+    of kept lines differ, unexcused is None (everything is 'different')."""
+    norm = norm or (lambda s: s)
+    if preprocess:
+        expected = preprocess(expected)
+        actual = preprocess(actual)
+    # the comparison's own rule for the final newline: one trailing empty line is dropped on each side
+    if actual and len(actual[-1]) == 0:
+        actual = actual[:-1]
+    if expected and len(expected[-1]) == 0:
+        expected = expected[:-1]
+    ka = [i for i, x in enumerate(actual) if not any(r in x for r in remove_lines)]
+    ke = [i for i, x in enumerate(expected) if not any(r in x for r in remove_lines)]
+    if len(ka) != len(ke):
+        return False, None
+    bad = []
+    for i, j in zip(ka, ke):
+        x, y = actual[i], expected[j]
+        if norm(x) == norm(y):
+            continue
+        if any(s in y for s in ignore_substrings):
+            continue
+        if pattern_equiv is not None and pattern_equiv(x, y):
+            continue
+        bad.append((i, j))
+    if not bad:
+        return True, []
+    if len(bad) <= max_perm and sorted(actual[i] for i, _ in bad) == sorted(expected[j] for _, j in bad):
+        return True, bad
+    return False, bad
+
+
+def pattern_equiv_factory(fullmatchers):
+    """Declarative reading of ignore_patterns: a ~ e iff a == e, or for some pattern both split as
+    l.m.r / l'.m'.r' with m, m' non-empty-or-empty full matches of the pattern and l ~ l', r ~ r'.
+    `fullmatchers` are predicates str -> bool saying 'this whole string matches pattern k'."""
+    def equiv(a, e, depth=0):
+        if a == e:
+            return True
+        if depth > 3:
+            return False
+        for fm in fullmatchers:
+            for i in range(len(a) + 1):
+                for j in range(i, len(a) + 1):
+                    if not fm(a[i:j]):
+                        continue
+                    for p in range(len(e) + 1):
+                        for q in range(p, len(e) + 1):
+                            if not fm(e[p:q]):
+                                continue
+                            if (i, j) == (0, len(a)) and (p, q) == (0, len(e)):
+                                return True
+                            if (j - i) + (q - p) == 0:
+                                continue        # two empty matches explain nothing
+                            if equiv(a[:i], e[:p], depth + 1) and equiv(a[j:], e[q:], depth + 1):
+                                return True
+        return False
+    return equiv
